@@ -156,6 +156,27 @@ class CoderState(object):
         # from previous subset should NOT affect this subset. Also we do not
         # care about what is defined in previous subset so we are not saving them.
         self.new_refvals = {}
+        # Likewise every operator and bitmap related state must start afresh for
+        # each subset, i.e. each subset is a new application of the template.
+        self.nbits_offset = 0
+        self.scale_offset = 0
+        self.nbits_of_new_refval = 0
+        self.nbits_of_associated = []
+        self.nbits_of_skipped_local_descriptor = 0
+        self.bsr_modifier = BSRModifier(
+            nbits_increment=0, scale_increment=0, refval_factor=1
+        )
+        self.new_nbytes = 0
+        self.data_not_present_count = 0
+        self.status_qa_info_follows = QA_INFO_NA
+        self.bitmap = None
+        self.bitmapped_descriptors = None
+        self.bitmap_definition_state = BITMAP_NA
+        self.most_recent_bitmap_is_for_reuse = False
+        self.n_031031 = 0
+        self.next_bitmapped_descriptor = None
+        self.back_reference_boundary = 0
+        self.back_referenced_descriptors = None
         self.decoded_descriptors = self.decoded_descriptors_all_subsets[idx_subset]
         self.decoded_values = self.decoded_values_all_subsets[idx_subset]
         self.bitmap_links = self.bitmap_links_all_subsets[idx_subset]
